@@ -31,7 +31,7 @@ type verifArenaModel struct {
 	u32s     map[uint32][]uint32
 }
 
-const verifArenaBytes = 1 << 13
+const verifArenaBytes = 1 << 16
 
 var verifArenas []*verifArenaModel
 
